@@ -29,7 +29,7 @@ add("C01", "fire", "halton cursor not reset on reseed", "black_it/samplers/halto
 add("C01", "fire", "batch-0 guard dropped", CAL,
     "        if self.current_batch_index == 0:\n            # we only set the samplers' random state at the start of a calibration\n            self._set_samplers_seeds()",
     "        self._set_samplers_seeds()", "R1")
-add("C01", "silent", "rename loop variable in the cascade", "black_it/schedulers/base.py",
+add("C01", "silent", "other loop variable name in the cascade", "black_it/schedulers/base.py",
     "        for sampler in self.samplers:\n            sampler.random_state = self._get_random_seed()",
     "        for smp in self.samplers:\n            smp.random_state = self._get_random_seed()")
 add("C01", "silent", "extra print under verbose", CAL, "                if self.verbose:\n                    min_dist_new_points",
@@ -80,7 +80,7 @@ add("C06", "fire", "commit before insert", "black_it/utils/sqlite3_checkpointing
 add("C06", "fire", "rollback dropped", "black_it/utils/sqlite3_checkpointing.py", "        connection.rollback()\n        raise err from err", "        raise err from err", "R2")
 add("C06", "fire", "load swallows errors", "black_it/utils/json_pandas_checkpointing.py", '    with (checkpoint_path / "scheduler_pickled.pickle").open("rb") as fb:\n        scheduler = pickle.load(fb)  # nosec B301',
     '    try:\n        with (checkpoint_path / "scheduler_pickled.pickle").open("rb") as fb:\n            scheduler = pickle.load(fb)  # nosec B301\n    except Exception:  # noqa: BLE001\n        scheduler = None', "R3")
-add("C06", "silent", "rename connection local", "black_it/utils/sqlite3_checkpointing.py", "cursor = connection.cursor()\n        cursor.execute(SQL_SAVE_USER_VERSION)", "cursor = connection.cursor()\n        cursor.execute(SQL_SAVE_USER_VERSION)  # version first")
+add("C06", "silent", "comment after the version pragma", "black_it/utils/sqlite3_checkpointing.py", "cursor = connection.cursor()\n        cursor.execute(SQL_SAVE_USER_VERSION)", "cursor = connection.cursor()\n        cursor.execute(SQL_SAVE_USER_VERSION)  # version first")
 # ------------------------------------------------------------------------------------------------ C07
 add("C07", "fire", "gsl weight denominator", "black_it/loss_functions/gsl_div.py", "2 / (nb_word_lengths * (nb_word_lengths + 1))", "2 / (nb_word_lengths * (nb_word_lengths - 1))", "R3")
 add("C07", "fire", "scott exponent", "black_it/loss_functions/likelihood.py", "return n ** (-1 / (d + 4))", "return n ** (-1 / (d + 2))", "R3")
@@ -96,7 +96,7 @@ add("C08", "fire", "first coordinate skipped", "black_it/loss_functions/base.py"
 add("C08", "fire", "validation raises plain Exception", "black_it/loss_functions/base.py",
     "                    f\"to the number of coordinates, got {nb_coordinate_weights} and {num_coords}\"\n                ),\n                exception_class=ValueError,",
     "                    f\"to the number of coordinates, got {nb_coordinate_weights} and {num_coords}\"\n                ),\n                exception_class=Exception,", "R4")
-add("C08", "silent", "rename index in weighted sum", "black_it/loss_functions/base.py", "        for i in range(num_coords):\n            loss += self.compute_loss_1d(filtered_data[i], real_data[:, i]) * weights[i]",
+add("C08", "silent", "other index name in the weighted sum", "black_it/loss_functions/base.py", "        for i in range(num_coords):\n            loss += self.compute_loss_1d(filtered_data[i], real_data[:, i]) * weights[i]",
     "        for k in range(num_coords):\n            loss += self.compute_loss_1d(filtered_data[k], real_data[:, k]) * weights[k]")
 add("C08", "silent", "factor order in term", "black_it/loss_functions/base.py", "loss += self.compute_loss_1d(filtered_data[i], real_data[:, i]) * weights[i]", "loss += weights[i] * self.compute_loss_1d(filtered_data[i], real_data[:, i])")
 # ------------------------------------------------------------------------------------------------ C09
@@ -168,7 +168,7 @@ add("C17", "silent", "rename idxs", "black_it/utils/base.py", "idxs", "positions
 # ------------------------------------------------------------------------------------------------ C18
 add("C18", "fire", "table rebuilt on set_samplers", CAL, "        self.update_samplers_id_table(samplers)\n", "        self.samplers_id_table = self._construct_samplers_id_table(list(samplers))\n", "R1")
 add("C18", "fire", "next id is table size", CAL, "sampler_id = max(self.samplers_id_table.values()) + 1", "sampler_id = len(self.samplers_id_table) - 1", "R1")
-add("C18", "silent", "rename loop variable", CAL, "            sampler_name = type(sampler).__name__\n            if sampler_name in self.samplers_id_table:\n                continue\n\n            self.samplers_id_table[sampler_name] = sampler_id",
+add("C18", "silent", "other local name for the class name", CAL, "            sampler_name = type(sampler).__name__\n            if sampler_name in self.samplers_id_table:\n                continue\n\n            self.samplers_id_table[sampler_name] = sampler_id",
     "            cls_name = type(sampler).__name__\n            if cls_name in self.samplers_id_table:\n                continue\n\n            self.samplers_id_table[cls_name] = sampler_id")
 # ------------------------------------------------------------------------------------------------ C19
 add("C19", "fire", "explore on equality", "black_it/schedulers/rl/agents/epsilon_greedy.py", "if not random_e < self.eps:", "if not random_e <= self.eps:", "R3")
